@@ -21,11 +21,11 @@ EXTENDS Naturals, Sequences, FiniteSets, TLC
 CONSTANTS NStreams, MaxPerConn, MaxFaults, ClearStale, BufsOf     \* BufsOf: stream id -> number of buffers
 
 VARIABLES pc, stream, errs, sinkArmed, cancelArmed, count, queue, left, cancelled, runCancelled, nextStream, faults, timerSet,
-          reqs, cbs, lastOk, bad
+          reqs, cbs, rets, lastOk, bad   \* rets: the monitor's record of returned calls; the model starts at the queue, where a call has returned
 Prop == INSTANCE CompletionProp
 ivars == <<pc, stream, errs, sinkArmed, cancelArmed, count, queue, left, cancelled, runCancelled, nextStream, faults, timerSet>>
-vars == <<ivars, reqs, cbs, lastOk, bad>>
-MonUnch == UNCHANGED <<reqs, cbs, lastOk, bad>>
+vars == <<ivars, reqs, cbs, rets, lastOk, bad>>
+MonUnch == UNCHANGED <<reqs, cbs, rets, lastOk, bad>>
 
 Init == /\ pc = "dial" /\ stream = 0 /\ errs = FALSE /\ sinkArmed = FALSE /\ cancelArmed = 0 /\ count = 0 /\ queue = <<>>
         /\ left = [s \in 1..NStreams |-> BufsOf[s]] /\ cancelled = {} /\ runCancelled = FALSE /\ nextStream = 1 /\ faults = 0 /\ timerSet = FALSE
